@@ -1398,11 +1398,15 @@ func c20CreateStoresGivenValue(r *core.Run, rule string, m *ssa.Function) {
 			good, why := false, "the bytes written are not the result of json.Marshal"
 			if ex, ok := valueOrigin(p, w, 0).(*ssa.Extract); ok && ex.Index == 0 {
 				if mc, ok := ex.Tuple.(*ssa.Call); ok && core.CalleeName(mc) == "encoding/json.Marshal" {
-					o := valueOrigin(p, mc.Call.Args[0], 0)
-					if prm, ok := o.(*ssa.Parameter); ok && prm.Parent() == m {
-						good = true
-					} else {
-						why = "the value encoded is " + valDesc(o) + ", not the handler's value parameter as it was handed in (the variable is re-assigned or converted before it is encoded)"
+					// (the encoder may sit in a write helper shared with the other handlers: its parameter is
+					// followed to the call sites inside the create handler's own unit)
+					good = true
+					for _, a := range unitArgs(p, core.Strip(valueOrigin(p, mc.Call.Args[0], 0)), seen, 0) {
+						o := valueOrigin(p, a, 0)
+						if prm, ok := o.(*ssa.Parameter); !ok || prm.Parent() != m {
+							good = false
+							why = "the value encoded is " + valDesc(o) + ", not the handler's value parameter as it was handed in (the variable is re-assigned or converted before it is encoded)"
+						}
 					}
 				}
 			}
